@@ -58,13 +58,26 @@ class EP:
   def __repr__(s): return s.full
 
 class ConstEP:
-  def __init__(s, T, value, host):
-    s.T, s.value, s.host = T, value, host
+  """the constant of ONE connect statement.  Every statement creates its own constant node, also when several statements
+  use equal values: its identity is (value text, the signal it is tied to)"""
+  def __init__(s, T, value, host, tied=None):
+    s.T, s.value, s.host, s.tied = T, value, host, tied
   @property
-  def full(s): return f'Bits{s.T[1]}(0x{s.value:0{(s.T[1] + 3) // 4}x})'    # == repr(Const) in pymtl3
+  def crepr(s): return f'Bits{s.T[1]}(0x{s.value:0{(s.T[1] + 3) // 4}x})'    # == repr(Const) in pymtl3
+  @property
+  def full(s): return f'{s.crepr}@{s.tied.full}'
   def text(s, rng):
     return str(s.value) if rng.random() < 0.5 else f'Bits{s.T[1]}({s.value})'
   def __repr__(s): return s.full
+
+def const_name(top, c):
+  """canonical name of a pymtl3 Const object: its repr and the signal(s) it is connected to"""
+  adj = top._dsl.all_adjacency.get(c, ())
+  return repr(c) + '@' + '+'.join(sorted(repr(x) for x in adj))
+
+def const_value(name):
+  """integer value of a constant node name 'BitsN(0x..)@...'"""
+  return int(name.split('@')[0].split('(0x')[1].rstrip(')'), 16)
 
 def whole(sig):
   return EP(sig, '', sig.T, 0, twidth(sig.T), [])
@@ -104,7 +117,8 @@ class Inst:
 class Design:
   """hierarchy + statements.  stmts[host path] = list of statements:
      ('conn', a, b)            a: EP, b: EP or ConstEP   (meaning connect(a, b), undirected)
-     ('blk', name, ff, lines, writes:[(EP, op)], reads:[EP])"""
+     ('blk', name, ff, lines, writes:[(EP, op)], reads:[EP])   writes/reads include those of the @s.func helpers it calls
+     ('func', name, lines)                                      a helper declared with @s.func (may call other helpers)"""
   def __init__(s, name):
     s.name, s.insts, s.stmts, s.features = name, {}, {}, set()
     s.notes = {}
@@ -149,6 +163,8 @@ class Design:
           first = b if swap else a
           if syn == 1 and lhs_ok(first, ta): L.append(f'{ta} //= {tb}')
           else: L.append(f'connect( {ta}, {tb} )')
+        elif t[0] == 'func':
+          L.append('@s.func'); L.append(f'def {t[1]}():'); L += ['  ' + l for l in t[2]]
         else:
           _, name, ff, lines, _, _ = t
           L.append('@update_ff' if ff else '@update')
@@ -244,9 +260,11 @@ def unload(mname):
 
 def canon_nets(top):
   """[(writer name or None, sorted member names)] in the order pymtl3 resolved the nets"""
+  from pymtl3.dsl.Connectable import Const
+  nm = lambda x: const_name(top, x) if isinstance(x, Const) else repr(x)
   out = []
   for w, net in top.get_all_value_nets():
-    out.append((repr(w) if w is not None else None, sorted(repr(x) for x in net)))
+    out.append((nm(w) if w is not None else None, sorted(nm(x) for x in net)))
   return out
 
 def elaborate_src(scratch, src, clsname, keep=False):
